@@ -66,17 +66,17 @@ func overlap(a, b []edit) bool {
 }
 
 type c08Dir struct {
-	kw                 impl.Lex
-	kind               string
-	params             []impl.Lex
-	ann                *impl.Lex
-	open               *impl.Lex
-	body               *impl.Lex
-	hasPath            bool
-	headerEnd          int // index of the last byte of the keyword line's content
-	closeAfter         []impl.Lex
-	isDescription      bool
-	prevIsFreeText     bool
+	kw             impl.Lex
+	kind           string
+	params         []impl.Lex
+	ann            *impl.Lex
+	open           *impl.Lex
+	body           *impl.Lex
+	hasPath        bool
+	headerEnd      int // index of the last byte of the keyword line's content
+	closeAfter     []impl.Lex
+	isDescription  bool
+	prevIsFreeText bool
 }
 
 func lineStart(s string, i int) int {
